@@ -671,6 +671,9 @@ func c05Scenarios(tier string) []*Scenario {
 		}
 	}
 	ops := []string{"call", "batch", "callresult", "notify"}
+	// with one environment deviation (e.g. a buffered reply handed straight to a parked waiter)
+	out = append(out, c05Scenario(c05P{Op: "call", Items: []string{"op", "reply", "cancel"}, Unblock: true}, Bounds{1, 1, 1}),
+		c05Scenario(c05P{Op: "batch", Items: []string{"op", "reply", "close"}, Unblock: true}, Bounds{1, 1, 1}))
 	for _, op := range ops {
 		for _, e := range c05Events {
 			if e == "cancel" && false {
